@@ -160,6 +160,6 @@ def cases(tier, seed=0):
         out.append(linsum_case(3, 3, 1, True, semi=("W",), timeout=1800))
         out.append(linsum_case(3, 3, 1, False, semi=("S",), timeout=1800))
         out.append(linsum_case(2, 2, 1, True, timeout=1800))
-        out.append(linsum_case(4, 2, 1, True, semi=("W",), timeout=1800))
+        out.append(linsum_case(4, 2, 1, True, semi=("W", "S"), timeout=1800))
         out.append(linsum_case(2, 1, 3, True, timeout=900))
     return out
